@@ -36,11 +36,15 @@ type Cfg struct {
 	// not part of the model: event time pattern and name class of the alert IDs (names.go)
 	Zig   bool
 	Names int
+	// IDTag: the .id() template reads the alert ID from a tag that is NOT a group-by
+	// dimension (groupBy('g'), id from tag "id", one ID per group) instead of from the
+	// group-by tag itself
+	IDTag bool
 }
 
 // (keys sort after "ev" so that every Reset line starts with {"ev":"Reset" - verifylib splits on that)
 func (c Cfg) fields() rt.M {
-	return rt.M{"hasAnon": c.Anon, "hasNamed": c.Named, "sco": c.SCO, "times": timesLabel(c.Zig), "names": c.Names}
+	return rt.M{"hasAnon": c.Anon, "hasNamed": c.Named, "sco": c.SCO, "times": timesLabel(c.Zig), "names": c.Names, "idtag": c.IDTag}
 }
 
 // Pt is one data point: alert ID (= group) and the level its value maps to.
@@ -122,7 +126,14 @@ func openWorld(path string, c Cfg, lineage int64) (*world, error) {
 	}
 	w.env = env
 	var sb strings.Builder
-	sb.WriteString("stream\n |from().measurement('m').groupBy('id')\n |alert()\n  .id('{{ index .Tags \"id\" }}')\n")
+	if c.IDTag {
+		// one alert ID per group, rendered from a tag that is constant within the group but
+		// is not a group-by dimension: NewGroup must look the saved state up under the ID the
+		// events are published with (all the point's tags), not one rendered from the group tags
+		sb.WriteString("stream\n |from().measurement('m').groupBy('g')\n |alert()\n  .id('{{ index .Tags \"id\" }}')\n")
+	} else {
+		sb.WriteString("stream\n |from().measurement('m').groupBy('id')\n |alert()\n  .id('{{ index .Tags \"id\" }}')\n")
+	}
 	sb.WriteString("  .info(lambda: \"v\" == 1)\n  .warn(lambda: \"v\" == 2)\n  .crit(lambda: \"v\" == 3)\n")
 	if c.SCO {
 		sb.WriteString("  .stateChangesOnly()\n")
@@ -280,7 +291,7 @@ func (w *world) quiesce() {
 // feed writes point k and returns when the alert node has completely processed it
 // (all collects and commits done) and every handler has seen what was enqueued.
 func (w *world) feed(k int, p Pt) {
-	mp := rt.MustPoint("m", map[string]string{"id": nameClasses[w.cfg.Names].realID(p.ID)}, map[string]any{"v": int64(p.Lvl)},
+	mp := rt.MustPoint("m", map[string]string{"id": nameClasses[w.cfg.Names].realID(p.ID), "g": "g-" + p.ID}, map[string]any{"v": int64(p.Lvl)},
 		rt.DefaultTime.T(timeIndex(w.cfg.Zig, k)))
 	if err := w.env.TM.WritePoints("db", "rp", imodels.ConsistencyLevelAll, []imodels.Point{mp}); err != nil {
 		rt.Fatalf("c08: WritePoints: %v", err)
